@@ -289,6 +289,90 @@ fn many_slots_case(ctx: &WorkerCtx, rep: &mut WorkerReport, case_seed: u64) {
     drop_driver(f);
 }
 
+/// A transaction the EVM refuses (allowance below the intrinsic cost) is recorded as failed and does
+/// not use up its nonce; the identical call sent again later is the same transaction (same hash)
+/// recorded a second time. Rolling back to a block between the two must bring back the first record.
+fn refused_retry_case(ctx: &WorkerCtx, rep: &mut WorkerReport, case_seed: u64) {
+    let (net, _) = net_for_shard(ctx.shard);
+    let mut rng = crate::rng::Rng::new(case_seed ^ 0x4ef);
+    let mut r = new_driver("C01");
+    r.exec(Op::Init { hash: hist::ZERO_HASH.into(), ts: 1, height: 0 });
+    let pk = "5120b7b7b7b7b7b7b7b7b7b7b7b7b7b7b7b7b7b7b7b7b7b7b7b7b7b7b7b7b7b7b7".to_string();
+    let pk2 = "5120c8c8c8c8c8c8c8c8c8c8c8c8c8c8c8c8c8c8c8c8c8c8c8c8c8c8c8c8c8c8c8".to_string();
+    let mut uniq = 0u64;
+    let mut block = |r: &mut Driver, pk: &str, to: Option<&str>, data: &[u8], len: u64| -> Resp {
+        uniq += 1;
+        let h = hist::bh(0xc01_4ef0 + uniq);
+        let c = Ctx { ts: 10 + uniq, hash: h.clone(), idx: 0 };
+        let iid = format!("c01-refused-{}i0", uniq);
+        let resp = match to {
+            None => r.exec(Op::Deploy { pk: pk.to_string(), data: hist::hx(data), enc: Enc::Hex, ctx: c, iid, len, txid: hist::ZERO_HASH.into() }),
+            Some(t) => r.exec(Op::Call { pk: pk.to_string(), target: Target::Addr(t.to_string()), data: Some(hist::hx(data)), enc: Enc::Hex, ctx: c, iid, len, txid: hist::ZERO_HASH.into() }),
+        };
+        let n = r.ntx;
+        r.exec(Op::Finalise { ts: 10 + uniq, hash: h, count: n });
+        resp
+    };
+    let dep = block(&mut r, &pk2, None, &asm::tool_init(), 1_000_000);
+    let Some(tool) = hist::created_address(&dep) else {
+        rep.inconclusive("tool deployment failed");
+        drop_driver(r);
+        return;
+    };
+    let data = asm::tool_call(asm::OP_INC, &[asm::word_u64(1)], &[]);
+    // first attempt: refused
+    block(&mut r, &pk, Some(&tool), &data, rng.below(2));
+    let b1 = r.height as u64;
+    for _ in 0..rng.below(3) {
+        block(&mut r, &pk2, Some(&tool), &data, 100_000);
+    }
+    if rng.chance(3, 4) {
+        r.exec(Op::Commit);
+    }
+    for _ in 0..rng.below(2) {
+        block(&mut r, &pk2, Some(&tool), &data, 100_000);
+    }
+    let before_retry = r.height as u64;
+    // the identical call again: refused once more, or executed this time
+    block(&mut r, &pk, Some(&tool), &data, if rng.chance(1, 2) { rng.below(2) } else { 100_000 });
+    for _ in 0..rng.below(2) {
+        block(&mut r, &pk2, Some(&tool), &data, 100_000);
+    }
+    if rng.chance(1, 3) {
+        r.exec(Op::Commit);
+    }
+    let keep = rng.range(b1, before_retry);
+    if (r.height as u64) - keep > 9 {
+        drop_driver(r);
+        return;
+    }
+    let from = r.height;
+    let resp = r.exec(Op::Reorg { n: keep });
+    rep.evaluations += 1;
+    if !resp.is_ok() {
+        violation(rep, "C01", ctx.seed, "refused-inside-window", format!("reorg({}) from height {} was refused: {}", keep, from, resp.short()), json!({"case_seed": case_seed}));
+        drop_driver(r);
+        return;
+    }
+    let mut f = new_driver("C01");
+    for op in r.prefix_ops(keep) {
+        f.exec(op);
+    }
+    let mut u = universe(&[&r.log], from.max(0) as u64 + 1, None);
+    u.max_height = from.max(0) as u64 + 1;
+    let (or, of) = observe_pair(&mut r.inst, &mut f.inst, &u, ObsMode::Boundary);
+    let d = or.diff(&of);
+    if !d.is_empty() {
+        violation(rep, "C01", ctx.seed, &format!("reorg-state-differs:{}", obs_diff_sig(&d)),
+            format!("after reorg({}) from height {} (a refused transaction of block {} was sent again above the target) the instance answers {} queries differently from a fresh instance fed only the history up to block {}", keep, from, b1, d.len(), keep),
+            json!({"case_seed": case_seed, "network": net, "differences(rolled-back vs fresh)": obs::diff_summary(&d, 10), "history": log_json(&r.log, 60)}));
+    } else {
+        rep.nontrivial(format!("refused-then-retried:{}", if keep == b1 { "target-is-the-refusing-block" } else { "target-between" }));
+    }
+    drop_driver(r);
+    drop_driver(f);
+}
+
 pub fn worker(ctx: &WorkerCtx) -> WorkerReport {
     if ctx.shard == 7 {
         FORCE_HUGE.store(true, std::sync::atomic::Ordering::Relaxed);
@@ -310,6 +394,10 @@ pub fn worker(ctx: &WorkerCtx) -> WorkerReport {
     if ctx.shard % 12 == 5 {
         let cs = rng.next();
         many_slots_case(ctx, &mut rep, cs);
+    }
+    for _ in 0..(if ctx.thorough() { 6 } else { 1 }) {
+        let cs = rng.next();
+        refused_retry_case(ctx, &mut rep, cs);
     }
     rep.set_add("networks", net);
     rep
